@@ -1,5 +1,5 @@
 """C13 -- solving again gives fresh, consistent answers."""
-from . import state, formula, translate
+from . import state, formula, translate, solveprog
 
 LEVEL = "other"
 EXPLANATION = ("Per-solve freshness (new wrapper, rebinding of the tracking lists and of the objective leaf, regeneration of class and "
@@ -13,6 +13,7 @@ ASSUMPTIONS = ["equality of returned numbers across solves is not decided (solve
 
 def run(ctx):
     state.r_fresh(ctx)
+    solveprog.r_solve_program(ctx, {"track", "drain"})   # nothing left over from an earlier solve is tracked or sent; what is sent is what was just regenerated
     n = state.r_accum(ctx)
     state.r_memo(ctx)
     state.r_memo_new(ctx)
